@@ -148,10 +148,56 @@ def _files(ctx, case):
                 ctx.violation(case, "order-or-partition-dependent",
                               "%s: line %r -> %r, but %r when all files are run together" % (name, src, dst, together[src]))
                 return
+    if not _files_api(ctx, case, fcfg, texts, together):
+        return
     if case.get("cli"):
         _files_cli(ctx, case, fcfg, texts, together)
     ctx.distinct(("files", fcfg["salt"], case["lseed"]))
     ctx.sample({"kind": "files", "fcfg": fcfg, "nfiles": len(files), "first_line": flat[0], "first_out": together[flat[0]]}, cap=8)
+
+
+def _files_api(ctx, case, fcfg, texts, together):
+    """The same files as one directory through anonymize_files (one shared anonymizer pair for the
+    whole run) and one by one: every line must come out as in the in-process run."""
+    nc = load.nc()
+    pp, pa = fcfg.get("pp"), fcfg.get("pa")
+    kw = dict(salt=fcfg["salt"], preserve_prefixes=None if pp is None else list(pp),
+              preserve_networks=None if pa is None else list(pa),
+              preserve_suffix_v4=fcfg.get("B4"), preserve_suffix_v6=fcfg.get("B6"))
+    # at least 5 files so that late files of a run are covered
+    texts = (texts * 5)[: max(5, len(texts))]
+    with tempfile.TemporaryDirectory(dir=os.path.join(load.VERIF, ".work")) as d:
+        os.makedirs(os.path.join(d, "in", "sub"))
+        names = []
+        for i, t in enumerate(texts):
+            name = ("sub/" if i % 3 == 2 else "") + "f%d.cfg" % i
+            names.append(name)
+            with open(os.path.join(d, "in", name), "w", encoding="utf-8") as f:
+                f.write("".join(t))
+        nc.af.anonymize_files(os.path.join(d, "in"), os.path.join(d, "out"), False, True, **dict(kw, preserve_prefixes=None if pp is None else list(pp)))
+        ctx.count("anonymize_files_directory_runs")
+        for name, t in zip(names, texts):
+            nc.af.anonymize_files(os.path.join(d, "in", name), os.path.join(d, "single", name), False, True,
+                                  **dict(kw, preserve_prefixes=None if pp is None else list(pp), preserve_networks=None if pa is None else list(pa)))
+            try:
+                with open(os.path.join(d, "out", name), encoding="utf-8") as f:
+                    a = f.read()
+                with open(os.path.join(d, "single", name), encoding="utf-8") as f:
+                    b = f.read()
+            except OSError as e:
+                ctx.violation(case, "output-missing", "anonymize_files wrote no output for %s: %s" % (name, e))
+                return False
+            exp = "".join(together[ln] for ln in t)
+            ctx.count("file_order_partition_runs")
+            if a != exp or b != exp:
+                which = "directory run" if a != exp else "single-file run"
+                la = (a if a != exp else b).splitlines(True)
+                i = next((j for j, (x, y) in enumerate(zip(la, exp.splitlines(True))) if x != y), 0)
+                ctx.violation(case, "order-or-partition-dependent",
+                              "anonymize_files %s of %s: line %r -> %r, but %r in the in-process run over all files"
+                              % (which, name, t[i] if i < len(t) else None, la[i] if i < len(la) else None, together.get(t[i]) if i < len(t) else None))
+                return False
+    return True
 
 
 def _files_cli(ctx, case, fcfg, texts, together):
